@@ -189,6 +189,21 @@ func String() *kindOf[string] {
 	}
 }
 
+// JSONStr is the JSON column transferred as strings (proto.ColJSONStr): a serialization version in the state prefix,
+// then a String column.
+func JSONStr() *kindOf[string] {
+	return &kindOf[string]{
+		name: "JSON", ast: map[string]any{"k": "json"},
+		newCol:  func() proto.ColumnOf[string] { return new(proto.ColJSONStr) },
+		toAbs:   func(v string) any { return Ints([]byte(v)) },
+		fromAbs: func(a any) string { return string(Bytes(a)) },
+		gen: func(r *rand.Rand, budget int) any {
+			return Ints([]byte([]string{`{}`, `{"a":1}`, `{"k":"v","n":[1,2,3]}`, `{"s":"` + strings.Repeat("x", 130) + `"}`, ``}[r.Intn(5)]))
+		},
+		zero: func() any { return []int{} },
+	}
+}
+
 // FixedString(n) kind.
 func FixedString(n int) *kindOf[[]byte] {
 	return &kindOf[[]byte]{
